@@ -620,7 +620,23 @@ class Run:
         act = step["action"]
         uid = self.spec["uid"]
         noise = []
-        ns = {"State": State, "StateMachine": StateMachine, "NOISE": lambda *a, **k: noise.append(1)}
+        class _Noi:
+            def run(self, *a, **k):
+                noise.append(1)
+
+            async def arun(self, *a, **k):
+                noise.append(1)
+
+            def guard(self, *a, **k):
+                return True
+
+            async def aguard(self, *a, **k):
+                return True
+
+            def validator(self, *a, **k):
+                return None
+
+        ns = {"State": State, "StateMachine": StateMachine, "NOISE": lambda *a, **k: noise.append(1), "NOI": _Noi()}
         if act == "define_same_name":
             src = self.source
             # machine class only (drop provider classes), same names, other signatures / async flipped
@@ -632,6 +648,10 @@ class Run:
                 body = re.sub(r"def (\w+)\(self, \*args, \*\*kwargs\):", r"def \1(self, args=None, *, kwargs=None):", body)
             elif variant == 1:
                 body = re.sub(r"(?<!async )def (\w+)\(self, \*args, \*\*kwargs\):", r"async def \1(self, *args, **kwargs):", body)
+            elif variant == 4:
+                # same code size and shape, only the parameter kinds differ (positional arguments are lost)
+                body = re.sub(r"def (\w+)\(self, \*args, \*\*kwargs\):", r"def \1(self, *, args=(), **kwargs):", body)
+                body = body.replace("REC.", "NOI.")
             elif variant == 2:
                 body = re.sub(r"def (\w+)\(self, \*args, \*\*kwargs\):", r"def \1(self, kwargs=None, *args):", body)
             else:
@@ -669,6 +689,15 @@ class Run:
 
                 sys.modules.pop(modname, None)
                 self.extra_mods.remove(modname)
+                try:   # the class registry would keep the dropped class (and its code objects) alive
+                    from statemachine import registry as _reg
+
+                    dead = getattr(mod, f"M_{uid}")
+                    for k_ in [k_ for k_, v_ in _reg._REGISTRY.items() if v_ is dead]:
+                        del _reg._REGISTRY[k_]
+                    del dead
+                except Exception:  # noqa: BLE001
+                    pass
                 del other, provs, mod
                 gc.collect()
         elif act == "subclass":
